@@ -1133,6 +1133,16 @@ class Printer:
                     pre += self.st_abs(dcl, ind)
                 I = I[nskip:]
                 self.fire('abs:if-with-declaration')
+            # calls with a declared ghost effect inside the CONDITION take effect before the branch
+            eff_c = self.unit.get('call_effects', {})
+            if eff_c and I and I[0]:
+                for c in walk(I[0]):
+                    if c.get('kind') in ('CXXMemberCallExpr', 'CallExpr') and c.get('inner'):
+                        f_c = self.callee_decl(c['inner'][0])
+                        nm_c = f_c.get('name') or f_c.get('referencedDecl', {}).get('name')
+                        if nm_c in eff_c:
+                            self.fire('abs:call-with-ghost-effect-in-condition')
+                            pre += t + eff_c[nm_c] + ';   /* %s (in the condition) */\n' % nm_c
             r = pre + t + 'if (%s)\n' % cond(I[0]) + t + '{\n' + self.st_abs(I[1], ind + 1) + t + '}\n'
             if len(I) > 2:
                 r += t + 'else\n' + t + '{\n' + self.st_abs(I[2], ind + 1) + t + '}\n'
